@@ -38,6 +38,7 @@ CHECKS = {
                               r'"res":"chunks"': 10},
                      nontrivial=[r'"ev":"api_cancel"', r'"res":"chunk"']),
             data_leg("data_nocancel", (60, 1500), {"cancel": 0, "ports": 1, "defer": 2}),
+            data_leg("data_bp", (80, 2000), {"cancel": 1, "ports": 1, "bp": 1}, nontrivial=[r'"ev":"backpressure"', r'"ev":"api_cancel"']),
         ],
     },
     "C02": {
@@ -65,6 +66,10 @@ CHECKS = {
             data_leg("data_cancel", (150, 3000), {"cancel": 1, "ports": 1}, require={r'"ev":"quiescent"': 100, r'"kind":"connect"': 10},
                      nontrivial=[r'"ev":"api_cancel"']),
             data_leg("data_ports", (80, 2000), {"cancel": 1, "ports": 1, "sends": 10}, nontrivial=[r'"kind":"connect"']),
+            data_leg("data_bp", (120, 3000), {"cancel": 1, "ports": 1, "bp": 1}, require={r'"ev":"backpressure"': 100},
+                     nontrivial=[r'"ev":"backpressure"', r'"ev":"api_cancel"']),
+            dict(CT, kind="trace", name="block", workload="block", n=(60, 1500), opts={}, require={r'"ev":"quiescent"': 50},
+                 nontrivial=[r'"kind":"connect"|"kind":"send"']),
         ],
     },
     "C07": {
@@ -79,6 +84,7 @@ CHECKS = {
                                                        r'"ev":"h_port_free"': 100},
                      nontrivial=[r'"ev":"h_port_free"', r'"kind":"client_connect"']),
             life_leg("life_calm", (40, 1000), {"calm": 1, "cancel": 0}, nontrivial=[r'"ev":"h_port_free"']),
+            life_leg("life_ldrop", (100, 2000), {"ldrop": 1, "connects": 8, "data": 0}, nontrivial=[r'"what":"listener"']),
         ],
     },
     "C10": {
@@ -105,6 +111,25 @@ CHECKS = {
                                                                           r'"err":"closed_dropped"': 10, r'"res":"none"': 30,
                                                                           r'"kind":"closed"': 30},
                      nontrivial=[r'"kind":"close"|"what":"receiver"', r'"kind":"send"']),
+        ],
+    },
+    "C06": {
+        "rule": "fault enumeration: a seeded lifecycle+data workload is run fault-free, then once per (fault kind x direction x "
+                "frame index with stride) under a virtual clock; plus faults inside the handshake and long idle periods; "
+                "distinct = distinct event sequences; non-trivial = the fault fired while operations were pending",
+        "assumptions": ["a healthy transport delivers every frame within a quarter of the smaller timeout",
+                        "dropping a transport half is observed by the peer as end of stream / broken pipe (as with TCP)"],
+        "legs": [
+            model("ChmuxFault_MC.cfg", spec="ChmuxFaultMC.tla", min_states=100000, timeout=1800),
+            model("ChmuxFault_MC2.cfg", spec="ChmuxFaultMC.tla", min_states=100000, timeout=3600, thorough_only=True),
+            dict(CT, kind="trace", name="fault_sweep", workload="fault", n=(2, 20), opts={"stride": 6},
+                 require={r'"ev":"fault"': 60, r'"kind":"stall_both"': 5, r'"settled":true': 40}, nontrivial=[r'"ev":"fault"'], max_rounds=4),
+            dict(CT, kind="trace", name="hs_fault", workload="hs_fault", n=(3, 30), opts={}, require={r'"kind":"mux_new"': 60},
+                 nontrivial=[r'"ev":"fault"']),
+            dict(CT, kind="trace", name="idle", workload="idle", n=(12, 40), opts={"periods": 150}, require={r'"b":\[3\]': 100},
+                 nontrivial=[r'"b":\[3\]'], quick_only=True),
+            dict(CT, kind="trace", name="idle_long", workload="idle", n=(12, 40), opts={"periods": 1000}, require={r'"b":\[3\]': 100},
+                 nontrivial=[r'"b":\[3\]'], thorough_only=True),
         ],
     },
 }
